@@ -1,13 +1,60 @@
-/- C17 — first layer; see DESIGN.md §5 -/
+/- C17 — summary queries are consistent with the levels; see DESIGN.md §5 -/
 import UBidi.Model.Reorder
 import UBidi.Spec.UAX9
 import UBidi.Spec.Reorder
+import UBidi.Lemmas.C17
 namespace UBidi.Props.C17
-open UBidi
+open UBidi UBidi.Lemmas.C17
 
-/-- the analysis of the empty text is empty and does not fail -/
-theorem empty_text (ds : DataSource) (d : Option Nat) :
-    (bidiInfo ds (Text.ofScalars []) d).levels = [] ∧ (bidiInfo ds (Text.ofScalars []) d).err = none := by
-  constructor <;> rfl
+/-- `para_direction`: Ltr exactly when all levels are even (and there is one), Rtl exactly when all are odd
+    — the empty slice gives Rtl, as the code does —, Mixed otherwise -/
+theorem C17_direction (ls : List Nat) :
+    (paraDirection ls = .ltr ↔ ls ≠ [] ∧ ∀ l ∈ ls, l % 2 = 0) ∧ (paraDirection ls = .rtl ↔ ∀ l ∈ ls, l % 2 = 1) ∧
+    (paraDirection ls = .mixed ↔ (∃ l ∈ ls, l % 2 = 0) ∧ (∃ l ∈ ls, l % 2 = 1)) := by
+  have := dirLoop_spec false false ls (by simp)
+  simp only [paraDirection]
+  grind
+
+/- tests (literals): the three outcomes and the empty slice -/
+example : paraDirection [0, 2, 0] = .ltr ∧ paraDirection [1, 3] = .rtl ∧ paraDirection [0, 1, 2] = .mixed ∧
+    paraDirection [] = .rtl := by decide
+
+/-- `Paragraph::level_at(pos)` reads the level vector at the paragraph-relative position -/
+theorem C17_level_at (levels : List Nat) (p : ParaInfo) (pos : Nat) : levelAt levels p pos = levels[p.start + pos]? := rfl
+
+/-- `BidiInfo::has_rtl` is true exactly when some level is odd -/
+theorem C17_has_rtl_multi (b : BidiInfo) : b.hasRtl = true ↔ ∃ l ∈ b.levels, l % 2 = 1 := by
+  simp [BidiInfo.hasRtl, Level.hasRtl, Level.isRtl]
+
+/-- the single-paragraph type: `has_rtl() == false` makes skipping the reordering safe: every level is 0 and
+    `reorder_line` returns every line unchanged (`.1 = none` means "borrowed", i.e. returned as is).
+    `hd`: the default level is auto, LTR or RTL (what `Level::ltr()` / `Level::rtl()` / `None` give). -/
+theorem C17_has_rtl_single (ds : DataSource) (t : Text) (d : Option Nat) (hd : d = none ∨ d = some 0 ∨ d = some 1)
+    (h : (paragraphBidiInfo ds t d).hasRtl = false) :
+    (∀ l ∈ (paragraphBidiInfo ds t d).levels, l = 0) ∧
+    (∀ a b, (reorderLine t (paragraphBidiInfo ds t d).classes (paragraphBidiInfo ds t d).levels (paragraphBidiInfo ds t d).paraLevel a b).1 = none) := by
+  have h01 := lastLevel_le_one ds t d hd false
+  simp only [ParagraphBidiInfo.hasRtl, paragraphBidiInfo, Bool.or_eq_false_iff, Bool.not_eq_false'] at h
+  obtain ⟨hp, hr⟩ := h
+  have h0 : (computeInitialInfo ds t d false).lastLevel = 0 := by
+    rcases h01 with h0 | h1
+    · exact h0
+    · rw [h1] at hr; simp [Level.isRtl] at hr
+  have hlv : (paragraphBidiInfo ds t d).levels = List.replicate t.len 0 := by
+    simp [paragraphBidiInfo, paraLevels, h0, hp]
+  have hpl : (paragraphBidiInfo ds t d).paraLevel = 0 := by
+    simp [paragraphBidiInfo, h0]
+  rw [hlv, hpl]
+  refine ⟨fun l hl => (List.mem_replicate.mp hl).2, fun a b => ?_⟩
+  unfold reorderLine
+  split
+  · rfl
+  · rw [hasRtl_slice_replicate]; simp [Level.isLtr]
+
+/- non-vacuity: "a(b) " with the built-in tables and an auto level satisfies the hypotheses;
+   "aא" does not (has_rtl is true there, and its levels are [0,1,1]) -/
+example : (paragraphBidiInfo hardcoded (Text.ofScalars [0x61, 0x28, 0x62, 0x29, 0x20]) none).hasRtl = false := by
+  decide +kernel
+example : (paragraphBidiInfo hardcoded (Text.ofScalars [0x61, 0x5D0]) none).hasRtl = true := by decide +kernel
 
 end UBidi.Props.C17
